@@ -63,6 +63,8 @@ def gen(rng, tier, ctx):
             steps.append(["drop", rng.randrange(1000)])
         elif op == "relate":
             steps.append(["relate", rng.choice(["works_for", "member_of", "members", "sub_org_of"]), rng.randrange(1000), rng.randrange(1000)])
+        elif op in ("q_new", "q_build") and rng.random() < 0.06:
+            steps.append([op, "Badged"])        # a class whose instances are those of a class registered with it (ABC.register)
         elif op in ("q_new", "q_build", "q_build_attr"):
             steps.append([op, rng.choice(["Person", "Employee", "Manager", "Org", "Dept", "Chief", "Volunteer", "WorkingStudent", "VOrg", "VPerson",
                                           "SeasonalA", "Row", "Row", "Lenient", "Visitor"])])
@@ -105,6 +107,7 @@ def witnesses():
                                                         ["q_new", "Volunteer"]]},
             "late-branch-variable-keeps-first-domain": {"steps": [
         ["create", "Person"], ["create", "Org"], ["q_rule", "Person", "Org"], ["q_rule_eval", 0], ["create", "Org"], ["q_rule_eval", 0]]},
+            "instances-of-a-registered-subclass-left-out": {"steps": [["create", "Row"], ["create", "Row"], ["q_new", "Badged"]]},
             "instances-created-meanwhile-seen-by-class-position": {"steps": [
         ["create", "Org"], ["create", "Dept"], ["q_during", "Org", 1, ["Org", "Dept"]]]},
             "instance-unpickled-with-an-old-protocol-not-registered": {"steps": [
